@@ -321,7 +321,7 @@ func runC07(rc *RC) {
 	if hasCollide {
 		rc.Spawn("requester", func() {
 			ctx, cancel := context.WithTimeout(e.Ctx, 3*time.Second)
-			defer cancel()
+			defer simrt.Settle(cancel, "h:cancel")
 			r, err := e.Sess.SendIQ(ctx, stanza.IQ{ID: "r1", Type: stanza.GetIQ}.Wrap(xmlstream.Wrap(nil, el("urn:verif", "ours"))))
 			if r != nil {
 				r.Close()
